@@ -194,6 +194,16 @@ let dispatch cmd a =
   | "dec_vlr" -> dec_out (spec_dec_vlr_header (ext 0) (bytes_of_tok a.(1)))
   | "dec_vlrs" -> dec_vlrs (ext 0) (int_of_string a.(1)) (bytes_of_tok a.(2))
   | "enc_vlr" -> res tok_of_bytes (spec_enc_vlr_header (ext 0) (vals_of_tok a.(1)))
+  (* payloads of the other records the specification lays out: known_names / dec_known / enc_known <lookup|waveform|geokeys_header|geokey> ..;
+     lookup <payload>: the classification lookup table parse_record_data builds (class:description;..), none = not a whole number of records *)
+  | "known_names" -> Stdlib.String.concat "|" (List.map string_of_coq (spec_known_names (coq_string_of a.(0))))
+  | "dec_known" -> (match spec_dec_known (coq_string_of a.(0)) (bytes_of_tok a.(1)) with
+                    | Ok r -> dec_out r
+                    | Err e -> "err " ^ err_name e)
+  | "enc_known" -> res tok_of_bytes (spec_enc_known (coq_string_of a.(0)) (vals_of_tok a.(1)))
+  | "lookup" -> (match lookup_parse (bytes_of_tok a.(0)) with
+                 | Some t -> "ok " ^ (if t = [] then "-" else Stdlib.String.concat ";" (List.map (fun (c, d) -> string_of_z c ^ ":" ^ tok_of_bytes d) t))
+                 | None -> "none")
   | "ebd_names" -> names_tok spec_eb_descriptor
   | "dec_ebd" -> dec_out (spec_dec_eb_descriptor (bytes_of_tok a.(0)))
   | "enc_ebd" -> res tok_of_bytes (spec_enc_eb_descriptor (vals_of_tok a.(0)))
